@@ -1,4 +1,103 @@
-import BlochVerif.Sim.Model
+import BlochVerif.Sim.Tensor
+/-!
+# C01 — built-in gates act as their defining unitaries on exactly the addressed qubits
+
+Property theorems only (helper lemmas live in `BlochVerif/Sim/*`).  The model is
+`BlochVerif/Sim/Model.lean`, one definition per member function of `qasm_simulator.cpp` with
+the same loops; the driver executes the *same* definitions with `Float` and is compared with
+the real simulator after every operation.
+-/
 namespace BlochVerif.Props.C01
-theorem placeholder : True := trivial
+open BlochVerif BlochVerif.Sim Finset
+
+/-- (loop level, any scalar type) the blocked double loop of `applySingleQubitGate` writes, at
+    every index `k`, row `k_q` of `M` applied to the pair of amplitudes that differ in bit `q` -/
+theorem applySingle_loop_correct {K : Type} [Inhabited K] [Add K] [Mul K]
+    (arr : Array K) (n q : Nat) (m : Mat2 K) (hsize : arr.size = 2 ^ n) (hq : q < n) :
+    (applySingle arr q m).size = arr.size ∧
+    ∀ k, k < arr.size → (applySingle arr q m)[k]! = gateSpecX (absArr arr) q m k := by
+  obtain ⟨h1, h2⟩ := applySingle_eq_gateSpec arr n q m hsize hq
+  exact ⟨h1, fun k hk => by rw [h2 k hk, gateSpec_eq_gateSpecX]⟩
+
+/-- (loop level, any scalar type) the triple loop of `cx` is the permutation
+    `|x⟩ ↦ |x xor (x_c · 2^t)⟩`, for every ordered pair of distinct qubits -/
+theorem cx_loop_correct {K : Type} [Inhabited K]
+    (arr : Array K) (n c t : Nat) (hsize : arr.size = 2 ^ n) (hc : c < n) (ht : t < n)
+    (hct : c ≠ t) :
+    (cxLoop arr c t).size = arr.size ∧
+    ∀ k, k < arr.size → (cxLoop arr c t)[k]! = (absArr arr) (if k.testBit c then k ^^^ 2 ^ t else k) :=
+  cxLoop_eq_cxSpec arr n c t hsize hc ht hct
+
+/-- **Single-qubit gates.** For every register size, every active qubit `q`, every gate of
+    `h x y z rx ry rz` (any angle) and every state: the simulator accepts the call and the new
+    state is `(I ⊗ … ⊗ M_q ⊗ … ⊗ I) ψ`, with `M` unitary. -/
+theorem gate_acts_as_unitary_on_addressed_qubit (st : State ℂ ℝ) (hw : WF st) (op : QOp ℝ)
+    (q : ℕ) (m : Mat2 ℂ) (hg : gateMat complexOps op = some (q, m)) (hq : q < st.n)
+    (hm : st.measured[q]! = false) :
+    ∃ st', gate1 complexOps st op = .ok st' ∧ st'.n = st.n ∧ st'.amps.size = 2 ^ st.n ∧
+      IsUnitary2 m ∧
+      ∀ k, k < 2 ^ st.n →
+        st'.amps[k]! = ∑ j ∈ range (2 ^ st.n), tensorEntry q m k j * (absArr st.amps) j := by
+  obtain ⟨a1, a2⟩ := applySingle_loop_correct st.amps st.n q m hw.size hq
+  refine ⟨({ st with amps := applySingle st.amps q m }).log op, ?_, by simp, by simp [a1, hw.size],
+    gateMat_unitary op q m hg, ?_⟩
+  · unfold gate1; rw [hg]
+    simp only [bind, Except.bind, ensureActive_ok st q hq hm, pure, Except.pure]
+  · intro k hk
+    simp only [log_amps]
+    rw [a2 k (by rw [hw.size]; exact hk), gateSpecX_eq_tensor _ st.n q hq m k hk]
+
+/-- **cx.** For every register size, every ordered pair of distinct active qubits and every state
+    the new amplitude of `|k⟩` is the old amplitude of `|k with bit t flipped iff bit c set⟩`. -/
+theorem cx_acts_as_controlled_not (st : State ℂ ℝ) (hw : WF st) (c t : ℕ) (hc : c < st.n)
+    (ht : t < st.n) (hct : c ≠ t) (hmc : st.measured[c]! = false) (hmt : st.measured[t]! = false) :
+    ∃ st', cx st c t = .ok st' ∧ st'.n = st.n ∧ st'.amps.size = 2 ^ st.n ∧
+      ∀ k, k < 2 ^ st.n → st'.amps[k]! = (absArr st.amps) (cxMap c t k) := by
+  obtain ⟨a1, a2⟩ := cx_loop_correct st.amps st.n c t hw.size hc ht hct
+  refine ⟨({ st with amps := cxLoop st.amps c t }).log (.cx c t), ?_, by simp, by simp [a1, hw.size], ?_⟩
+  · unfold cx
+    simp only [bind, Except.bind, ensureActive_ok st c hc hmc, ensureActive_ok st t ht hmt,
+      hct, if_false, pure, Except.pure]
+  · intro k hk
+    simp only [log_amps]
+    rw [a2 k (by rw [hw.size]; exact hk)]; rfl
+
+/-- `cxMap` flips bit `t` exactly when bit `c` is set and touches no other bit -/
+theorem cxMap_bits (c t k i : ℕ) :
+    (cxMap c t k).testBit i = (k.testBit i ^^ (decide (t = i) && k.testBit c)) := by
+  unfold cxMap
+  cases h : k.testBit c
+  · simp
+  · simp [Nat.testBit_xor, Nat.testBit_two_pow]
+
+/-- **The seven matrices are the standard ones**: Paulis and Hadamard literally, rotations
+    `R_P(t) = cos(t/2)·1 − i·sin(t/2)·P`, i.e. `exp(−i t P/2)` since `P² = 1`, with the
+    one-parameter group law. -/
+theorem matrices_are_standard (q : ℕ) (t : ℝ) :
+    gateMat complexOps (.x q) = some (q, pauliX) ∧
+    gateMat complexOps (.y q) = some (q, pauliY) ∧
+    gateMat complexOps (.z q) = some (q, pauliZ) ∧
+    gateMat complexOps (.h q) = some (q, hadamard) ∧
+    gateMat complexOps (.rx q t) = some (q, rotOf pauliX t) ∧
+    gateMat complexOps (.ry q t) = some (q, rotOf pauliY t) ∧
+    gateMat complexOps (.rz q t) = some (q, rotOf pauliZ t) :=
+  ⟨gate_x q, gate_y q, gate_z q, gate_h q, gate_rx q t, gate_ry q t, gate_rz q t⟩
+
+theorem rotations_form_one_parameter_groups (s t : ℝ) :
+    (matMul pauliX pauliX = ident ∧ matMul pauliY pauliY = ident ∧ matMul pauliZ pauliZ = ident) ∧
+    (∀ p, matMul p p = ident → rotOf p 0 = ident ∧ matMul (rotOf p s) (rotOf p t) = rotOf p (s + t)) :=
+  ⟨pauli_sq, fun p hp => ⟨rotOf_zero p, rotOf_add p hp s t⟩⟩
+
+/-- on a computational basis state the gate writes column `x_q` of `M` onto factor `q` and leaves
+    every other qubit of `|x⟩` as it was — this fixes the whole linear map -/
+theorem gate_on_basis_state (q : ℕ) (m : Mat2 ℂ) (x k : ℕ) :
+    gateSpecX (fun j => if j = x then (1 : ℂ) else 0) q m k =
+      if agreeOff q k x then m.entry (k.testBit q) (x.testBit q) else 0 :=
+  gateSpecX_basis q m x k
+
+/-! Non-vacuity: a concrete two-qubit state meets the hypotheses. -/
+example : WF (allocate complexOps (allocate complexOps (State.init complexOps)).1).1 ∧
+    (1 : ℕ) < (allocate complexOps (allocate complexOps (State.init complexOps)).1).1.n :=
+  ⟨WF_allocate _ (WF_allocate _ WF_init), by simp [allocate_n, State.init]⟩
+
 end BlochVerif.Props.C01
